@@ -8,6 +8,8 @@ package main
 import (
 	"fmt"
 	"os"
+
+	"github.com/cockroachdb/redact"
 )
 
 type command struct {
@@ -28,11 +30,26 @@ func main() {
 	}
 	for _, c := range commands {
 		if c.name == os.Args[1] {
+			scribble()
 			c.run(os.Args[2:])
 			return
 		}
 	}
 	usage()
+}
+
+// scribble: a caller may do what it likes with the slices the API hands out.  Before any stage runs, every such slice
+// is overwritten; if the library had handed out its own (the marker constants the escaper compares against, a pooled
+// scratch buffer), everything checked afterwards would show it.
+func scribble() {
+	for _, m := range [][]byte{redact.StartMarker(), redact.EndMarker(), redact.RedactedMarker(),
+		redact.EscapeMarkers([]byte("a‹b›c")), []byte(redact.EscapeBytes([]byte("x\ny‹"))),
+		redact.RedactableBytes("a ‹b› c").Redact(), redact.RedactableBytes("a ‹b› c").StripMarkers(), redact.RedactableString("a ‹b›").ToBytes()} {
+		full := m[:cap(m)]
+		for i := range full {
+			full[i] = 'X'
+		}
+	}
 }
 
 func usage() {
